@@ -14,10 +14,13 @@ PROP=$(python3 -c "import json;print(json.load(open('$M/meta.json'))['property']
 echo "== $M ($PROP)"
 # demo on the clean tree
 DEMO="$M/demo/run.sh"
+copydemo() { for d in $M/demo/*/; do [ -d "$d" ] && cp -r "$d" $WT/ ; done; }
+copydemo
 ( cd $WT && bash $DEMO >/tmp/evalmut-clean.log 2>&1 ); c0=$?
 ( cd $WT && git checkout -q -- . && git clean -fdq )
 ( cd $WT && git apply $M/patch.diff ) || { echo "patch does not apply"; exit 2; }
 ( cd $WT && go build ./... && go test -vet=off -count=1 ./... >/tmp/evalmut-suite.log 2>&1 ); s=$?
+copydemo
 ( cd $WT && bash $DEMO >/tmp/evalmut-mut.log 2>&1 ); c1=$?
 ( cd $WT && git clean -fdq )
 echo "suite_exit=$s demo_clean_exit=$c0 demo_mutant_exit=$c1"
